@@ -56,7 +56,8 @@ type BChunk struct {
 
 // BScenario is the explicit scenario of one world-B run
 type BScenario struct {
-	Family        string   `json:"family"` // fluentd | datadog
+	Fine          bool     `json:"fine_yields,omitempty"` // every larger function entry of the code under test is a preemption point in this run
+	Family        string   `json:"family"`                // fluentd | datadog
 	Chunks        []BChunk `json:"chunks"`
 	InCap         int      `json:"in_cap"`
 	MaxDurMs      int      `json:"max_duration_ms"`
@@ -81,6 +82,9 @@ func (w *worldB) Decode(raw json.RawMessage) (any, error) {
 	err := json.Unmarshal(raw, &s)
 	return &s, err
 }
+
+// SetFine switches fine-grained interleaving on for this scenario
+func (s *BScenario) SetFine(v bool) { s.Fine = v }
 
 func (w *worldB) Generate(r *simrt.Rand, profile, tier string) any {
 	s := &BScenario{}
@@ -592,6 +596,7 @@ func (r *bRun) sendTimeout(size int) time.Duration {
 
 func (w *worldB) Run(t *testing.T, profile string, sc any, cfg simrt.Config) *Outcome {
 	s := sc.(*BScenario)
+	cfg.FineYields = s.Fine
 	out := &Outcome{}
 	r := &bRun{s: s, out: out, consumed: map[string]int{}, leftover: map[string]int{}, drained: map[string]bool{}}
 	logger.SetOutput(&r.logbuf)
